@@ -52,6 +52,14 @@ CHECKS = {
          "velocities. Invariants: finite, |constraint| <= (n+1)e-14, q_w >= 0, matrix within (n+1)e-13 of the same program run on long-double "
          "reference matrices.",
     design="4/C15", technique="explicit-state BFS over operation histories with bit-exact state merging, against a reference model"),
+ "C16": dict(
+    text="Explicit-state breadth-first search over sequences (depth 4 quick / 5 thorough) of ~25-35 mutating calls made through Map views "
+         "(whole-object assign / *= / += / setIdentity / coeffs()=, aliasing variants, every sub-part accessor) over a guarded caller buffer "
+         "at vector-aligned and scalar-aligned placement, 11 types; after every call the region equals the same call on a value object "
+         "(<= 4 ulp) and every scalar outside the call's documented write range is bitwise unchanged; in every reached state all const "
+         "operations agree between value / Map / const Map, const views do not write, cross-storage copies are verbatim, cast<S>() is "
+         "coefficient-wise; const Map non-mutability is a compile-time requirement.",
+    design="4/C16", technique="explicit-state BFS over operation histories on the real buffer with a shadow value model"),
  "C17": dict(
     text="Bounded exhaustive enumeration of full products over element / tangent / planar-angle alphabets (incl. signed-zero coefficient "
          "pairs): SE_K_3<1> = SE3 and SE_K_3<2> = zero-time Galilei operation by operation (all ordered pairs for composition), lift/project "
